@@ -74,4 +74,7 @@ claim("C03",
  "Ingredients of crash-to-error: the wait goroutine sets exited and cancels doneCtx on every path; Start returns an error whenever its select ends by exit/timeout or the line channel closes; every blocking operation on the host paths (Start, Client, Dispense, Ping, broker Accept/Dial/knock, stdio client) has a bounding alternative (timer, doneCtx) or is I/O on the plugin connection (accepted in mode peer-dead); no panic obligations on all these functions for arbitrary plugin output; doneCtx is what newGRPCClient hands to GRPCPlugin.GRPCClient and the stdio stream.",
  "Mode peer-dead assumes pending I/O on a connection to a dead process fails (kernel, yamux keepalive, gRPC). Calls made through user-generated gRPC stubs are not under contract. Known finding D3 (C04) is the one unbounded call found: Kill -> ClientProtocol.Close.",
  "DESIGN.md section 7 C03")
-NOT_YET["C17"] = "environment-list contracts (effective lookup over cmd.Env) are being built; until they discharge the property is not claimed"
+claim("C17",
+ "At both launch sites of Start (cmdrunner.NewCmdRunner, ClientConfig.RunnerFunc) the command's environment, viewed as a sequence whose effective value per key is its last entry, satisfies: cookie key -> cookie value, PLUGIN_MIN_PORT/MAX_PORT rendered from the config, PLUGIN_PROTOCOL_VERSIONS = the join of exactly the registered versions (loop invariant over the map iteration), PLUGIN_MULTIPLEX_GRPC=true when multiplexing is requested, PLUGIN_CLIENT_CERT = the generated certificate when AutoMTLS, socket group when configured, socket directory = the directory just created for a custom runner; PLUGIN_CLIENT_CERT and PLUGIN_MULTIPLEX_GRPC are otherwise exactly as in the configured Cmd.Env, independent of the host environment (fixed defect D9, hostEnv proved to filter them); with SkipHostEnv every key comes from Cmd.Env or is one of the control variables; cmd.Stdin is os.Stdin.",
+ "Assumed: os/exec keeps the last duplicate, fmt.Sprintf renders %s of a string as the string, the key of an entry is the text before '='; precondition recorded in the clauses: the magic cookie key is not one of go-plugin's own variable names. PLUGIN_UNIX_SOCKET_DIR / PLUGIN_UNIX_SOCKET_GROUP present in the host environment are inherited when the client configures none and SkipHostEnv is off: documented plugin-side variables (CHANGELOG GH-270), treated as by design, so their host-independence is proved under SkipHostEnv only.",
+ "DESIGN.md section 7 C17")
